@@ -497,26 +497,40 @@ def tdb_rules(ctx, A):
     ctx.ob(['C02', 'C03'], 'R-GUARD', 'G4|size-multiple-of-alignment', len(g4) == 1, 'size % alignment != 0 ⇒ Err on the very size and alignment that are returned', g4[0].where() if g4 else where)
     if g4:
         ctx.ob(['C02', 'C03'], 'R-DOM', 'G4|covers-non-packed', covers_all_paths(tdb, g4[0], exempt_edges=ptrue), 'on the non-packed branch the test lies on every path to Ok(Some(..))', g4[0].where())
-    # G2 per-field alignment
-    g2 = []
-    for g in gs:
+    # G2 per-field alignment (in the builder itself, or in a helper whose error the builder propagates)
+    def is_g2(g):
         cp = cmp_parts(g.pred)
         if g.kind == 'reject' and cp and cp[1][0] == 'bin' and cp[1][1] == 'Rem' and is_int(cp[2], 0) and cp[0] in ('Ne', 'Gt'):
             rem = cp[1]
             if find_calls(rem[3], 'Type::alignment') and rem[2][0] == 'var':
-                g2.append((g, rem))
+                return rem
+        return None
+    g2 = [(g, is_g2(g), None) for g in guards_of(tdb) if is_g2(g)]
+    if not g2:
+        for callee, pg, call in propagated_calls(tdb):
+            for g in guards_of(callee):
+                if is_g2(g):
+                    g2.append((g, is_g2(g), (callee, pg, call)))
     ctx.ob(['C01', 'C03'], 'R-GUARD', 'G2|field-offset-aligned', len(g2) == 1, 'running offset % alignment(field type) != 0 ⇒ Err', g2[0][0].where() if g2 else where)
     if g2:
-        g, rem = g2[0]
-        okit, L = covers_each_iteration_exempt(tdb, g, ptrue)
-        sty, src = (loop_source(tdb, L) if L else (None, None))
+        g, rem, via = g2[0]
+        G = tdb if via is None else via[0]
+        if via is None:
+            okit, L = covers_each_iteration_exempt(tdb, g, ptrue)
+        else:
+            okit, L = covers_each_iteration(G, g)
+            okit = okit and covers_all_paths(tdb, via[1], exempt_edges=ptrue)
+        sty, src = (loop_source(G, L) if L else (None, None))
+        if src is not None and via is not None:
+            src = subst_args(expand(G, src), via[2][2])
         elem_align = find_calls(rem[3], 'Type::alignment')[0]
         elem = [x for x in walk(elem_align[2][0]) if is_call(x, 'Iterator::next')]
         over_R = src is not None and any(strip(x) == R for x in walk(src)) and sty and re.match(r"^std::slice::Iter<'_, %s>$" % re.escape(REGION), sty)
         ctx.ob(['C01', 'C03'], 'R-ITER', 'G2|every-region-every-iteration', bool(okit and over_R and elem),
-               'the test runs in every iteration of a loop over all regions of the final vector (iterator %s), on the non-packed branch on every path to success' % sty, g.where())
+               'the test runs in every iteration of a loop over all regions of the final vector (iterator %s), on the non-packed branch on every path to success%s' % (
+                   sty, '' if via is None else ' (in helper %s)' % short(G.id)), g.where())
         acc = rem[2]
-        defs = tdb.init_of(acc[1])
+        defs = G.init_of(acc[1])
         okacc = len(defs) == 2 and any(is_int(d, 0) for d in defs) and any(
             d[0] == 'bin' and d[1] == 'Add' and strip(d[2]) == acc and size_of_region(d[3], lambda r: bool(elem) and any(x == elem[0] for x in walk(r))) for d in defs)
         ctx.ob(['C01', 'C03'], 'R-EXPR', 'G2|offset-is-prefix-sum', okacc, 'the tested offset starts at 0 and advances by the size of the current region: %s' % [show(d)[:120] for d in defs], g.where())
